@@ -33,6 +33,16 @@ def gen_string(rng):
         if len(d["text"]) > 24:
             d["text"] = d["text"][:24]
         return "text", decl_yara("a", d), d, [e for e, _ in encodings(d)] or [bytes.fromhex(d["text"])]
+    if k == 5:      # Atomized, ONE atom hit yields a BATCH of matches (AcMatchStatus::Multiple): the limit
+        # can be crossed inside the batch
+        which = rng.below(4)
+        if which == 0:
+            return "other", "$a = /a.{0,2}bb/", None, [b"aaabb", b"aabb", b"aaabb ", b"abb", b"aaabb.aaabb"]
+        if which == 1:
+            return "other", "$a = { 61 [0-2] 62 62 }", None, [b"aaabb", b"aabb", b"aaabb-", b"abb"]
+        if which == 2:
+            return "other", "$a = /x[a-z]{0,3}yy/", None, [b"xxxxyy", b"xxxyy", b"xxyy ", b"xyy"]
+        return "other", "$a = { 41 [0-3] 42 43 44 }", None, [b"AAAABCD", b"AAABCD ", b"AABCD", b"ABCD"]
     if k < 7:       # Atomized, one fixed-length match per atom hit
         which = rng.below(4)
         if which == 0:
@@ -61,6 +71,40 @@ def gen_mem(rng, seeds, reps):
     return bytes(m[:260])
 
 
+CTX_NEEDLES = [b"QZQZ", b"q9Z", b"ZZtop", b"\x01\x02\x03QQ"]
+
+
+def gen_context(rng):
+    """other rules around the rule under test: namespaces, global (true / false) and private rules, with
+    strings of their own that occur in the input; the rule under test stays in an enabled namespace"""
+    k = rng.below(8)
+    if k < 3:
+        return None
+    needle = rng.choice(CTX_NEEDLES)
+    nq = c01.yara_quote(needle)
+    priv = 'private rule c_priv { strings: $x = %s $w = "never-there" condition: $x or $w }' % nq
+    pub = 'rule c_pub { strings: $x = %s private condition: #x >= 0 }' % nq
+    gfalse = "global rule c_gf { condition: filesize > 100000000 }"
+    gtrue = "global rule c_gt { strings: $g = %s condition: #g >= 0 }" % nq
+    if k == 3:      # a disabled namespace holding a private rule with strings, before the rule under test
+        before = [{"ns": "ns_a", "src": gfalse + " " + priv}]
+        after = []
+    elif k == 4:    # private rule with strings in the same namespace, before
+        before = [{"ns": None, "src": priv}]
+        after = [{"ns": "ns_z", "src": pub}]
+    elif k == 5:    # true global with a string + private rule, same namespace; disabled namespace after
+        before = [{"ns": None, "src": gtrue + " " + priv}]
+        after = [{"ns": "ns_a", "src": gfalse + " " + priv.replace("c_priv", "c_priv2")}]
+    elif k == 6:    # public rules with private strings before and after
+        before = [{"ns": "ns_a", "src": pub}]
+        after = [{"ns": None, "src": pub.replace("c_pub", "c_pub2")}]
+    else:           # two disabled namespaces with private rules, before
+        before = [{"ns": "ns_a", "src": gfalse + " " + priv},
+                  {"ns": "ns_b", "src": gfalse.replace("c_gf", "c_gf2") + " " + priv.replace("c_priv", "c_priv2")}]
+        after = []
+    return {"before": before, "after": after, "needle": needle.hex(), "ns": rng.choice([None, "ns_main"])}
+
+
 class C14(Prop):
     ID = "C14"
     LEVEL = "proof"
@@ -70,7 +114,13 @@ class C14(Prop):
                    "Model.Limits.")
     HARNESS_BINS = ("c14",)
     KF = {}
-    RULE = ("per matcher kind (text strings under all modifier shapes = MatcherKind::Literals, fully modelled; raw "
+    RULE = ("the string under test is scanned ALONE without limit (reference list U, N = |U|) and then, under the "
+            "limit, INSIDE a rule set (5/8 of the cases: other namespaces, true / false global rules, private rules "
+            "and private strings with their own matching strings before and after it); atomized hex / regex strings "
+            "include patterns whose single atom hit yields a batch of matches (`/a.{0,2}bb/`, `{ 61 [0-2] 62 62 }`) "
+            "so that the limit (1, 2, N-1 ...) is crossed inside one batch; for text strings every reported record "
+            "must be an occurrence of one of THAT string's encodings (Spec/TextSpec.v), for the other kinds a member "
+            "of U. Per matcher kind (text strings under all modifier shapes = MatcherKind::Literals, fully modelled; raw "
             "regexes = scan_single_variable loop modelled, the regex read off the unlimited run; atomized hex/regex "
             "strings = checked against the specification only): repetitive inputs with N true matches, direct and "
             "fragmented (1-4 regions, failing fetches), match_max_length in {0, 1, len-1, len, len+1, 2|m|}, "
@@ -112,8 +162,23 @@ class C14(Prop):
                 regs.append({"start": addr, "hex": mem.hex(), "fail": rng.chance(1, 6)})
                 addr += len(mem)
             inp = {"regions": regs}
-        return {"kind": kind, "decl": decl, "tdecl": d, "input": inp,
-                "maxlen_sel": rng.below(7), "lim_rel": rng.choice([-2, -1, 0, 1, 2, None, "one"]),
+        ctxt = gen_context(rng)
+        if ctxt is not None:        # the context strings occur in the input too
+            nd = bytes.fromhex(ctxt["needle"])
+            if "mem" in inp:
+                inp = {"mem": (bytes.fromhex(inp["mem"]) + b" " + nd + b" ").hex()}
+            else:
+                for r in inp["regions"]:
+                    if rng.chance(1, 2):
+                        r["hex"] = (nd + b" " + bytes.fromhex(r["hex"])).hex()
+                inp["regions"][-1]["hex"] = (bytes.fromhex(inp["regions"][-1]["hex"]) + b" " + nd).hex()
+                # keep the layout disjoint
+                addr = inp["regions"][0]["start"]
+                for r in inp["regions"]:
+                    r["start"] = max(r["start"], addr)
+                    addr = r["start"] + len(r["hex"]) // 2
+        return {"kind": kind, "decl": decl, "tdecl": d, "input": inp, "context": ctxt,
+                "maxlen_sel": rng.below(7), "lim_rel": rng.choice([-2, -1, 0, 1, 2, None, "one", "two"]),
                 "profile": rng.choice(["speed", "memory"]), "mode": rng.choice([None, "fast", "single_pass"])}
 
     def generate(self, ctx, rng, n):
@@ -123,7 +188,8 @@ class C14(Prop):
         return 700 if tier == "quick" else 12000
 
     # ---------------------------------------------------------------- execution: unlimited run, then the limited one
-    def hcase(self, case, params, probe=None):
+    def hcase(self, case, params, probe=None, context=False):
+        """the string alone (reference runs), or inside its rule set (the run under test)"""
         rules = "rule r { strings: %s condition: #a >= 0 }" % case["decl"]
         if probe is not None:
             rules += " rule probe { strings: %s condition: #a == %d }" % (case["decl"], probe)
@@ -131,8 +197,11 @@ class C14(Prop):
         p["compute_full_matches"] = True
         if case.get("mode"):
             p["mode"] = case["mode"]
-        return {"rules": [{"ns": None, "src": rules}], "profile": case.get("profile", "speed"), "params": p,
-                "input": case["input"]}
+        entries = [{"ns": None, "src": rules}]
+        ctxt = case.get("context")
+        if context and ctxt:
+            entries = list(ctxt["before"]) + [{"ns": ctxt.get("ns"), "src": rules}] + list(ctxt["after"])
+        return {"rules": entries, "profile": case.get("profile", "speed"), "params": p, "input": case["input"]}
 
     def resolve(self, case, n_true, first_len, total):
         sel = case["maxlen_sel"]
@@ -142,6 +211,8 @@ class C14(Prop):
             lim = 1000
         elif rel == "one":
             lim = 1
+        elif rel == "two":
+            lim = 2
         else:
             lim = max(1, n_true + rel)
         return maxlen, lim
@@ -158,7 +229,7 @@ class C14(Prop):
             meta.append((maxlen, lim))
             ph1.append(self.hcase(c, {"string_max_nb_matches": UNLIMITED, "match_max_length": maxlen}))
             ph2.append(self.hcase(c, {"string_max_nb_matches": lim, "match_max_length": maxlen},
-                                  probe=min(len(ms), lim)))
+                                  probe=min(len(ms), lim), context=True))
         o1 = core.harness_run(ctx.binp, "c14", ph1)
         o2 = core.harness_run(ctx.binp, "c14", ph2)
         outs = []
@@ -168,13 +239,14 @@ class C14(Prop):
             ctx.count("input=%s" % ("direct" if "mem" in c["input"] else "regions=%d" % len(c["input"]["regions"])))
             ctx.count("lim_rel=%s" % (c["lim_rel"],))
             ctx.count("maxlen_sel=%d" % c["maxlen_sel"])
+            ctx.count("context=%s" % ("none" if not c.get("context") else "rule set"))
         return outs
 
     def term(self, ctx, case, out):
         a, b = out["unlimited"], out["limited"]
         if not (isinstance(a, dict) and isinstance(b, dict) and "rules" in a and "rules" in b):
             return (False, False, 0)
-        kinds = b.get("kinds") or []
+        kinds = a.get("kinds") or []      # the run of the string alone: its own matcher kind
         kind = case["kind"]
         actual = kinds[0] if kinds else "?"
         expected = {"text": "Literals", "raw": "Raw", "other": "Atomized"}[kind]
@@ -197,8 +269,9 @@ class C14(Prop):
             n = len(string_matches(out["unlimited"], "r", "a"))
         except Exception:
             return None
-        if n >= 2 and abs(out["lim"] - n) <= 2:
-            return json.dumps([case["decl"], case["input"], out["maxlen"], out["lim"]], sort_keys=True)
+        if n >= 2 and (abs(out["lim"] - n) <= 2 or out["lim"] <= 2):
+            return json.dumps([case["decl"], case["input"], out["maxlen"], out["lim"], case.get("context")],
+                              sort_keys=True)
         return None
 
     def sample(self, case, out):
